@@ -134,6 +134,26 @@ func addHooks(rng *rand.Rand, fam *gen.Family) {
 	}
 }
 
+// dropSlotKind removes a kind from a generated family. The shared StatefulSet template has the
+// label value "y", which YAML reads as a boolean: such an object cannot be converted to the typed
+// StatefulSet, helm then treats it as unstructured (two-way merge) and a real API server would
+// reject it - not a workload this property is about.
+func dropSlotKind(fam *gen.Family, kind string) {
+	for v := range fam.Versions {
+		var keep []int
+		for _, sl := range fam.Versions[v].Slots {
+			if gen.SlotPool[sl].Kind != kind {
+				keep = append(keep, sl)
+			}
+		}
+		if len(keep) == 0 {
+			keep = []int{0}
+			fam.Versions[v].Content[0] = "c0"
+		}
+		fam.Versions[v].Slots = keep
+	}
+}
+
 func vs(slots []int, content string, hooks ...gen.HookSpec) gen.VersionSpec {
 	v := gen.VersionSpec{Slots: slots, Content: map[int]string{}, Keep: map[int]bool{}, DefK: "d" + content, Hooks: hooks}
 	for _, s := range slots {
@@ -142,21 +162,24 @@ func vs(slots []int, content string, hooks ...gen.HookSpec) gen.VersionSpec {
 	return v
 }
 
-// directedFamily: v0 {cm-a cm-b dep} + install/rollback hooks; v1 {cm-a sec dep} (drops cm-b, adds
-// sec, changes the rest) + upgrade hooks; v2 {cm-a svc}; v3 = v0 with other content.
+// directedFamily: v0 {cm-a cm-b dep wid} + install/rollback hooks; v1 {cm-a sec dep wid} (drops cm-b,
+// adds sec, changes the rest) + upgrade hooks; v2 {cm-a svc}; v3 = v0's resources with other content
+// except the Widget (custom kind), which is rendered as in v0.
 func directedFamily() gen.Family {
 	hA := gen.HookSpec{Name: "hook-a", Kind: "Job", Events: []string{"pre-install", "post-install", "pre-rollback", "post-rollback", "pre-delete"}, Weight: "1"}
 	hB := gen.HookSpec{Name: "hook-b", Kind: "ConfigMap", Events: []string{"pre-upgrade", "post-upgrade", "pre-rollback"}, Policies: []string{"before-hook-creation", "hook-succeeded"}}
 	hC := gen.HookSpec{Name: "hook-c", Kind: "Pod", Events: []string{"post-upgrade", "post-rollback"}, Weight: "-1", Policies: []string{"before-hook-creation", "hook-failed"}}
+	v3 := vs([]int{0, 1, 5, 6}, "c3", hA, hB)
+	v3.Content[6] = "c0" // the Widget is rendered exactly as in v0
 	return gen.Family{Name: "fam", Versions: []gen.VersionSpec{
-		vs([]int{0, 1, 5}, "c0", hA),
-		vs([]int{0, 2, 5}, "c1", hB, hC),
+		vs([]int{0, 1, 5, 6}, "c0", hA),
+		vs([]int{0, 2, 5, 6}, "c1", hB, hC),
 		vs([]int{0, 3}, "c2", hB),
-		vs([]int{0, 1, 5}, "c3", hA, hB),
+		v3,
 	}}
 }
 
-var directedNames = []string{"fresh-install", "replace-install", "grow-shrink-upgrade", "rollback-with-hooks", "never-deployed-superseded"}
+var directedNames = []string{"fresh-install", "replace-install", "grow-shrink-upgrade", "rollback-with-hooks", "never-deployed-superseded", "drifted-custom-resource"}
 
 func mkSetup(d caseData) setup {
 	var s setup
@@ -180,6 +203,11 @@ func mkSetup(d caseData) setup {
 			// it never was deployed; the atomic upgrade must still restore revision 1's manifest.
 			s.prefix = []hop{in, {Op: env.Op{Kind: "upgrade", Chart: 1}, Fail: "wait"}, {Op: env.Op{Kind: "rollback", ToRev: 1}, Fail: "create"}}
 			s.target = env.Op{Kind: "upgrade", Chart: 2}
+		case "drifted-custom-resource":
+			// 2 failed at wait: the cluster (incl. the Widget) is at v1; the target renders the Widget as
+			// revision 1 does, so neither the upgrade nor the atomic rollback sees a manifest difference
+			s.prefix = []hop{in, {Op: env.Op{Kind: "upgrade", Chart: 1}, Fail: "wait"}}
+			s.target = env.Op{Kind: "upgrade", Chart: 3}
 		default:
 			panic("unknown directed history " + d.Directed)
 		}
@@ -187,6 +215,7 @@ func mkSetup(d caseData) setup {
 	} else {
 		rng := rand.New(rand.NewSource(d.HSeed))
 		s.fam = gen.NewFamily(rng, gen.FamilyOpts{Versions: 4, MaxSlots: 7})
+		dropSlotKind(&s.fam, "StatefulSet")
 		addHooks(rng, &s.fam)
 		vals := func() map[string]any {
 			if rng.Intn(3) == 0 {
@@ -622,13 +651,24 @@ func judgeFailure(res *core.Result, w *env.World, o observation, cat string, det
 				continue
 			}
 			res.Stat("atomic_restored_objects_compared", 1)
+			// cause shape: kind class, and whether the object already differed from the last good manifest
+			// before this op (drift left by an earlier failed op)
+			mclass := opTag(op) + " | built-in kind"
+			if !d.Typed() {
+				mclass = opTag(op) + " | custom (unstructured) kind"
+			}
+			if prev := ref.DecodeObj(o.snapBefore[d.Key]); prev == nil || len(ref.Subsumes(prev, d.Obj, d.Res)) > 0 {
+				mclass += " | object already differed from the last good manifest before the op"
+			} else {
+				mclass += " | object matched the last good manifest before the op"
+			}
 			live := w.Sim.Get(d.Key)
 			if live == nil {
-				res.Add("atomic-upgrade-cluster-mismatch", class, "%s of the restored manifest (revision %d) is missing from the cluster | %s", d, good.Revision, detail())
+				res.Add("atomic-upgrade-cluster-mismatch", mclass, "%s of the restored manifest (revision %d) is missing from the cluster | %s", d, good.Revision, detail())
 				continue
 			}
 			if diffs := ref.Subsumes(live, d.Obj, d.Res); len(diffs) > 0 {
-				res.Add("atomic-upgrade-cluster-mismatch", class, "%s does not carry the restored manifest's fields: %s | %s", d, strings.Join(diffs, "; "), detail())
+				res.Add("atomic-upgrade-cluster-mismatch", mclass, "%s does not carry the restored manifest's fields: %s | %s", d, strings.Join(diffs, "; "), detail())
 			}
 		}
 		for k, d := range failedKeys {
@@ -741,6 +781,14 @@ func run(c core.Case, verbose bool) core.Result {
 		case "watch":
 			w.Script.FailWatchNth, w.Script.FailAgent = f.J, "op"
 		}
+		if verbose && d.Only != "" {
+			ww := w
+			w.Sim.Gate = func(r *sim.Req) {
+				if r.Method == "PATCH" {
+					fmt.Printf("    PATCH %s body %s\n      live before: %v\n", r.Name, string(r.Body), ww.Sim.Get(r.Key()))
+				}
+			}
+		}
 		r := w.Exec("op", relName, target, s.chartFor(target))
 		w.Sim.ClearFaults()
 		w.Script.Reset()
@@ -761,6 +809,19 @@ func run(c core.Case, verbose bool) core.Result {
 		}
 		if verbose {
 			fmt.Printf("fault %-45s [%s] fired=%v err=%q ledger after [%s]\n", f.ID(), f.Cat, fired, r.ErrString(), env.LedgerString(after))
+		}
+		if verbose && d.Only != "" {
+			for _, e := range log {
+				if e.Agent != "op" {
+					continue
+				}
+				if e.Phase == "done" && e.Class != "discovery" {
+					fmt.Printf("    seq %d %s %s %s/%s -> %d injected=%v\n", e.Seq, e.Class, e.Method, e.Kind, e.Name, e.Code, e.Injected)
+				}
+				if e.Phase == "note" {
+					fmt.Printf("    seq %d %s %s %v %s\n", e.Seq, e.What, e.Note, e.Names, e.Err)
+				}
+			}
 		}
 		if !fired {
 			res.Stat("faults_not_reached", 1)
